@@ -45,6 +45,7 @@ template <typename A, typename ...R> void descAll(Summary & s, const A & a, cons
 
 struct Interp;
 Interp * g_h = nullptr;
+bool g_failedAssignChangedDestination = false;
 void deliver(int cb, const Summary & s);
 bool deliverPred(const Summary & s);
 
@@ -212,7 +213,24 @@ struct Cfg0 : HBase<eventpp::HeterEventQueue<int, L1> >
 		a.append(Fn<int>(900003));
 		eventpp::HeterCallbackList<L1> b;
 		b.append(Fn<const std::string &>(900004));
-		if(how) { b = a; b = b; } else { eventpp::HeterCallbackList<L1> c(a); b.swap(c); }
+		b.append(Fn<>(900005));
+		b.append(Fn<>(900006));
+		// callback-list assignment that fails must leave the destination exactly as it was (C09): b holds one callback of the
+		// third prototype and two of the first, a holds callbacks of the first and second
+		try {
+			if(how) { b = a; b = b; } else { eventpp::HeterCallbackList<L1> c(a); b.swap(c); }
+		}
+		catch(...) {
+			int strs = 0, voids = 0, ints = 0;
+			{
+				FaultPause p;
+				b.forEach<void (const std::string &)>([&](const std::function<void (const std::string &)> &) { ++strs; });
+				b.forEach<void ()>([&](const std::function<void ()> &) { ++voids; });
+				b.forEach<void (int)>([&](const std::function<void (int)> &) { ++ints; });
+			}
+			if(strs != 1 || voids != 2 || ints != 0) g_failedAssignChangedDestination = true;
+			throw;
+		}
 		int seen = 0;
 		b.forEach<void (int)>([&](const std::function<void (int)> &) { ++seen; });
 		b.forEach<void ()>([&](const std::function<void ()> &) { ++seen; });
@@ -713,6 +731,7 @@ struct Interp
 			catch(const std::bad_alloc &) { caught = 2; }
 			catch(...) { fail("fault.foreign", "C09", "an exception of a different type than the injected one reached the caller"); }
 		}
+		if(g_failedAssignChangedDestination) { g_failedAssignChangedDestination = false; fail("fault.assign.destination", "C09", "a failed copy assignment of a HeterCallbackList left the destination changed (some prototypes already hold the source's callbacks)"); return; }
 		if(! caught) return;
 		++plan->fired;
 		plan->firedKind = faults().lastKind;
